@@ -216,11 +216,30 @@ def _patterned(nbytes=32):
             lambda t: int.from_bytes(bytes([t[0]]) * t[1] + bytes([t[2]]) * (nbytes - t[1]), "big")))
 
 
+def bit_structured(maxbits):
+    """integers with regular bit structure, the inputs on which window / NAF / ladder code differs from the textbook:
+    a block of 1-16 bits repeated to any width (0x5555.., 0xaaaa.., 0x3333.., 0x1111.., runs of ones), such a value
+    with a few low bits disturbed, and sparse / dense values (few bits set / few bits clear)"""
+    def rep(p, q, m, delta):
+        q &= (1 << p) - 1
+        v = 0
+        for i in range(0, m, p):
+            v |= q << i
+        v &= (1 << m) - 1
+        return max(0, v + delta)
+    repeated = st.builds(rep, st.integers(1, 16), st.integers(1, 0xffff), st.integers(2, maxbits), st.sampled_from([0, 0, 0, 1, -1, 2, 3]))
+    sparse = st.lists(st.integers(0, maxbits - 1), min_size=1, max_size=4).map(lambda bits: sum({1 << b for b in bits}))
+    dense = st.tuples(st.integers(8, maxbits), st.lists(st.integers(0, maxbits - 1), min_size=1, max_size=4)).map(
+        lambda t: ((1 << t[0]) - 1) & ~sum({1 << b for b in t[1]}))
+    return st.one_of(repeated, repeated, sparse, dense)
+
+
 def scalars(n):
-    """private keys / nonces in [1, n-1]: boundary, powers of two +-1, byte patterns, uniform"""
+    """private keys / nonces in [1, n-1]: boundary, powers of two +-1, byte patterns, regular bit structure, uniform"""
     bs = sorted(boundary_set(1, n - 1, extra=(n // 2, n // 2 + 1)))
     return st.one_of(st.sampled_from(bs), st.integers(1, n - 1), st.integers(1, n - 1),
-                     _patterned((n.bit_length() + 7) // 8).map(lambda v: v % (n - 1) + 1))
+                     _patterned((n.bit_length() + 7) // 8).map(lambda v: v % (n - 1) + 1),
+                     bit_structured(n.bit_length()).map(lambda v: v if 1 <= v < n else v % (n - 1) + 1))
 
 
 def hashes(n, bits=256):
@@ -250,4 +269,6 @@ def big_scalars(n):
     uni = st.integers(1, n - 1)
     return st.one_of(st.sampled_from(special), uni, uni, uni.map(lambda v: -v), uni.map(lambda v: v + n),
                      st.integers(n, 1 << 300), st.sampled_from(sorted(boundary_set(1, n - 1))),
-                     st.tuples(uni, st.integers(-3, 3)).map(lambda t: t[0] + t[1] * n))
+                     st.tuples(uni, st.integers(-3, 3)).map(lambda t: t[0] + t[1] * n),
+                     bit_structured(n.bit_length() + 8),
+                     st.tuples(bit_structured(n.bit_length()), st.integers(-3, 3)).map(lambda t: t[0] % n + t[1] * n))
